@@ -142,7 +142,7 @@ class Create(Contract):
 
     def point_hook(self, c, stmt, outcome):
         for (nm, g) in self.point(c):
-            c.ex.oblige("point@L%d.%s" % (stmt.lineno, nm), "point", c.st, g)
+            c.ex.oblige("point@%s.%s" % (getattr(stmt, "_sid", "L%d" % stmt.lineno), nm), "point", c.st, g)
 
     def post(self, c):
         ok, rec = recorded_pid(c.old)
